@@ -93,3 +93,26 @@ def hmac_sha256(key, msg):
 def sha256(data):
     import hashlib
     return hashlib.sha256(data).digest()
+
+
+def rsa_k(key):
+    return key.size_in_bytes()
+
+
+def rsa_ok(priv, ct):
+    from Crypto.Cipher import PKCS1_v1_5
+    if len(ct) != priv.size_in_bytes():
+        return False
+    return PKCS1_v1_5.new(priv).decrypt(ct, None) is not None
+
+
+def rsa_pt(priv, ct):
+    from Crypto.Cipher import PKCS1_v1_5
+    if len(ct) != priv.size_in_bytes():
+        return b""
+    r = PKCS1_v1_5.new(priv).decrypt(ct, None)
+    return b"" if r is None else r
+
+
+def keypair(pub, priv):
+    return pub.n == priv.n
